@@ -311,7 +311,8 @@ func (ex *Exec) bigCmp(x, y BigVal) *smt.Term {
 		eq := ex.bigEq(x, y)
 		return smt.Ite(eq, smt.I64(0), smt.Ite(smt.Lt(x.I, y.I), smt.I64(-1), smt.I64(1)))
 	}
-	return smt.Ite(smt.Lt(x.I, y.I), smt.I64(-1), smt.Ite(smt.Eq(x.I, y.I), smt.I64(0), smt.I64(1)))
+	eq := ex.termEq(x.I, y.I)
+	return smt.Ite(smt.Lt(x.I, y.I), smt.I64(-1), smt.Ite(eq, smt.I64(0), smt.I64(1)))
 }
 
 // bigBytes models x.Bytes(): big-endian bytes of |x|.
